@@ -2,6 +2,7 @@
 from mirq import ty_str
 from mirq.origin import Origins, show, walk, decisions, lit_truth
 from mirq.paths import show_fact
+from mirq.origin import subst
 from mirq.pat import match, find, strip_refs
 from mirq.expand import Expander
 from rules.c14 import font_table, font_fields, field_index, MONOFONT
@@ -33,23 +34,22 @@ def run(ctx, rep):
     U = {("bin", "Add", UO, UH), ("bin", "Add", UH, UO)}
     ucol = ("field", ("param", 1, "self"), fi("underline_color"))
     need_table = False
-    paths = decisions(ms)
+    # path summaries (helpers introduced by an edit and the colour's variant predicates inlined)
+    from mirq.paths import Paths as _Paths, Unsupported as _Uns
+    try:
+        paths = _Paths(prog, inline=lambda g: prog.is_new(g) or ("::DecorationColor" in g.path and g.name in ("is_none", "is_text_color", "is_custom"))).of(ms)
+    except _Uns as e:
+        paths = []
     rep.check(1 <= len(paths) <= 8, "R02.1", "paths", "measure_string has %d paths" % len(paths), status="undecided", at=ms.span, fn=ms.path)
-    for lits, ret, path in paths:
-        r = strip_refs(ret)
+    _nd = lambda t: subst(t, lambda n: n[1] if n[0] in ("ref", "deref") else None)
+    for sm_ in paths:
+        r = _nd(sm_.ret)
         m = find(r, ("call", "*Rectangle::new", "_", ("_", ("call", "*Size::new", "_", ("?w", "?h")))))
         underlined = None
-        for d, lit in lits:
-            d = strip_refs(d)
-            mm = match(d, ("call", "*PartialEq::ne", "_", (ucol, ("agg", "*DecorationColor::None", ()))))
-            if mm is not None:
-                underlined = lit_truth(lit)
-            mm = match(d, ("call", "*PartialEq::eq", "_", (ucol, ("agg", "*DecorationColor::None", ()))))
-            if mm is not None:
-                underlined = not lit_truth(lit)
-            mm = match(d, ("call", "*DecorationColor::<C>::is_none", "_", (ucol,)))
-            if mm is not None:
-                underlined = not lit_truth(lit)
+        vs = [set(f_[2]) for f_ in sm_.facts if f_[0] == "variant" and _nd(f_[1]) == ucol]
+        if vs:
+            u_ = set.intersection(*vs)
+            underlined = False if u_ <= {"None"} else (True if "None" not in u_ else None)
         key = "height:" + {True: "underlined", False: "plain", None: "any"}[underlined]
         if not m:
             rep.fail("R02.1", key, "bounding box of measure_string is not Rectangle::new(_, Size::new(w, h)): %s" % show(r, maxd=5), status="undecided", at=ms.span, fn=ms.path)
@@ -356,24 +356,35 @@ def triangle_collapse(prog, rep):
     from mirq.paths import Paths, Unsupported, CONTINUES, is_continues
     TRI = "embedded_graphics::primitives::triangle::Triangle"
     ic = prog.method1(TRI, "is_collapsed", None)
-    jn = prog.method1(TRI, "joins", None)
+    jns = [f for f in prog.fns.values() if f.body and f.name == "joins" and f.impl and prog.impls[f.impl]["self_ty"].get("adt") == TRI]
+    jn = jns[0] if len(jns) == 1 else None      # the helper may have been inlined into is_collapsed
     vi = field_index(prog, TRI, "vertices")
     me = ("param", 1, "self")
     V = lambda k: ("index", ("field", me, vi), ("const", k))
     # joins: the three cyclic corner triples
     want = {(2, 0, 1), (0, 1, 2), (1, 2, 0)}
     got = set()
+
+    def corner_triples(tree):
+        for n in walk(tree):
+            if n[0] == "call" and n[1].endswith("LineJoin::from_points") and len(n[3]) == 5:
+                ks = tuple(next((k for k in range(3) if strip_refs(a) == V(k)), None) for a in n[3][:3])
+                got.add(ks)
+                if tuple(strip_refs(x) for x in n[3][3:]) != (("param", 2, "stroke_width"), ("param", 3, "stroke_offset")):
+                    got.add(("other-width",))
     try:
-        for sm in Paths(prog).of(jn):
-            for n in walk(sm.ret):
-                if n[0] == "call" and n[1].endswith("LineJoin::from_points") and len(n[3]) == 5:
-                    ks = tuple(next((k for k in range(3) if a == V(k)), None) for a in n[3][:3])
-                    got.add(ks)
-                    if n[3][3:] != (("param", 2, "stroke_width"), ("param", 3, "stroke_offset")):
-                        got.add(("other-width",))
+        if jn is not None:
+            for sm in Paths(prog).of(jn):
+                corner_triples(sm.ret)
+        else:
+            for sm in Paths(prog, loops="once").of(ic):
+                for fct in sm.facts:
+                    for x in fct[1:]:
+                        if isinstance(x, tuple):
+                            corner_triples(x)
     except Unsupported:
         pass
-    rep.check(got == want, "R02.7", "triangle:joins", "Triangle::joins must build the join of every corner from its cyclic neighbours (p3,p1,p2), (p1,p2,p3), (p2,p3,p1) with the given stroke; found %s" % sorted(got, key=str), at=jn.span, fn=jn.path)
+    rep.check(got == want, "R02.7", "triangle:joins", "the joins of a triangle must be built for every corner from its cyclic neighbours (p3,p1,p2), (p1,p2,p3), (p2,p3,p1) with the given stroke; found %s" % sorted(got, key=str), at=(jn or ic).span, fn=(jn or ic).path)
     bad = []
     seen = set()
     try:
@@ -384,7 +395,9 @@ def triangle_collapse(prog, rep):
     joins_call = ("call", "*Triangle::joins", "_", (me, ("param", 2, "stroke_width"), ("param", 3, "stroke_offset")))
     for sm in summs:
         nxt = [fct for fct in sm.facts if fct[0] == "variant" and fct[1][0] == "call" and fct[1][1].split("::")[-1] == "next"]
-        if len(nxt) != 1 or not any(match(n, joins_call) is not None for n in walk(nxt[0][1])):
+        walks_joins = len(nxt) == 1 and (any(match(n, joins_call) is not None for n in walk(nxt[0][1])) or
+                                         (jn is None and len([n for n in walk(nxt[0][1]) if n[0] == "call" and n[1].endswith("LineJoin::from_points")]) == 3))
+        if not walks_joins:
             bad.append("a path does not walk the joins of all corners (self.joins(stroke_width, stroke_offset))")
             continue
         rest = [fct for fct in sm.facts if fct is not nxt[0]]
@@ -436,7 +449,7 @@ def underline_in_box(prog, rep):
     me = ("param", 1, "self")
     ul = ("field", ("field", me, sf["font"]), ff["underline"])
     try:
-        summs = Paths(prog, inline=lambda g: prog.is_new(g) or "::DecorationColor" in g.path).of(ms)   # is_none() & co. are variant tests
+        summs = Paths(prog, inline=lambda g: prog.is_new(g) or ("::DecorationColor" in g.path and g.name in ("is_none", "is_text_color", "is_custom"))).of(ms)   # is_none() & co. are variant tests
     except Unsupported as e:
         rep.check(False, "R02.8", "measure_string:underline", "cannot summarise measure_string: %s" % e, status="undecided", at=ms.span, fn=ms.path)
         return
@@ -446,8 +459,8 @@ def underline_in_box(prog, rep):
         if not boxes:
             bad.append("a path returns no Rectangle::new(.., ..) box")
             continue
-        size = boxes[0]["?size"]
-        covers = any(strip_refs(n) == ul or (n[0] == "field" and strip_refs(n[1]) == ul) for n in walk(size))
+        size = subst(boxes[0]["?size"], lambda n: n[1] if n[0] in ("ref", "deref") else None)   # `*self.font` destructured
+        covers = any(n == ul or (n[0] == "field" and n[1] == ul) for n in walk(size))
         if covers:
             n_with += 1
             continue
